@@ -369,6 +369,9 @@ def make_c15_scenario(rng, name, shape, policy='default', sanitize=True):
     root = anc[0]
     scn['methods'].append({'id': 0, 'roots': [root], 'defs': [{'classes': [root], 'since': 1}, {'classes': [parent], 'since': 1}]})
     scn['methods'].append({'id': 1, 'roots': [root, root], 'defs': [{'classes': [root, root], 'since': 1}]})
+    for r in anc:                                          # one more uni-method per further root above U
+        if not H[r] and r != root:
+            scn['methods'].append({'id': len(scn['methods']), 'roots': [r], 'defs': [{'classes': [r], 'since': 1}]})
     b = Builder(scn, rng)
     b.update(False)
     u, su = b.obj(U, False), b.obj(U, True)
@@ -378,8 +381,10 @@ def make_c15_scenario(rng, name, shape, policy='default', sanitize=True):
     ops = b.ops
     k = [0]
 
-    def case(route, obj, stat, method=0, other=None):
+    def case(route, obj, stat, method=None, other=None):
         k[0] += 1
+        if method is None:      # a uni-method whose parameter class is a base of the pointer's class
+            method = [m['id'] for m in scn['methods'] if len(m['roots']) == 1 and is_base(H, m['roots'][0], stat)][0]
         c = {'op': 'case', 'label': 'x%d' % k[0], 'route': route, 'obj': obj, 'stat': stat, 'method': method}
         if other:
             c['other'] = other
@@ -394,10 +399,10 @@ def make_c15_scenario(rng, name, shape, policy='default', sanitize=True):
     case('final', u, rng.choice(anc))                     # wrong dynamic type (unregistered)
     case('final', d, D)                                   # control
     for r in ('call_ref', 'call_ptr'):
-        case(r, u, root)
+        case(r, u, root, method=0)
     for r in ('call_shared', 'call_cshared'):
-        case(r, su, root)
-    case('call_ref', d, root)                             # control
+        case(r, su, root, method=0)
+    case('call_ref', d, root, method=0)                   # control
     case('call_second', u, root, method=1, other=d)
     case('call_second', d, root, method=1, other=d)       # control
     for r in ('s_const', 's_lvalue', 's_rvalue', 's_xvalue'):
